@@ -42,7 +42,10 @@ const (
 	c09BigFile      = 1 << 20 // larger files are never copied byte-wise into images (hard link + header restore)
 	c09MagicGood    = 0x59b907EC
 	c09MagicDeleted = 0x000007EC
-	c09Header       = 20
+	// an erase marker of which only 3 of its 4 bytes reached the disk: it can only stem from an interrupted
+	// erase, so the reference (like the repaired reader) takes the record for deleted and keeps parsing
+	c09MagicDeletedTorn = 0x590007EC
+	c09Header           = 20
 )
 
 type c09OpKind int
@@ -157,7 +160,7 @@ func c09Parse(r io.ReaderAt, size int64) (recs []c09Disk, garbage bool) {
 		d.magic = binary.LittleEndian.Uint32(d.hdr[0:4])
 		d.sec = binary.LittleEndian.Uint32(d.hdr[4:8])
 		d.n = int64(binary.LittleEndian.Uint64(d.hdr[8:16]))
-		if d.n < 0 || pos+c09Header+d.n > size || (d.magic != c09MagicGood && d.magic != c09MagicDeleted) {
+		if d.n < 0 || pos+c09Header+d.n > size || (d.magic != c09MagicGood && d.magic != c09MagicDeleted && d.magic != c09MagicDeletedTorn) {
 			return recs, true
 		}
 		recs = append(recs, d)
@@ -913,7 +916,6 @@ func c09SameBig(a, b *c09SnapFile) bool {
 	return a.big && b.big && a.size == b.size && c09SameHdrs(a.hdrs, b.hdrs)
 }
 
-
 // c09ImgSeen de-duplicates crash images: the verdict of an image is a function of the directory bytes and the
 // expected list only, and many transitions (other shard's state, in-memory state) produce the same image.
 var c09ImgSeen sync.Map
@@ -1206,9 +1208,9 @@ type c09Part struct {
 
 type c09Counters struct {
 	images, dupImages atomic.Int64
-	mu                 sync.Mutex
-	notes              map[string]int
-	kinds              map[string]int
+	mu                sync.Mutex
+	notes             map[string]int
+	kinds             map[string]int
 }
 
 func (w *c09World) expList(s int) (exp []c09Exp, erased []*c09Rec) {
